@@ -201,7 +201,8 @@ func runC15(c c15Case) *vlib.Outcome {
 				continue
 			}
 			tag := fmt.Sprintf("%s/%s/g%d", x.Loc, x.Id, i)
-			rule := M{"schedule": c15Scheds[x.N], "action": M{"code": "'" + tag + "'"}}
+			// the action reports the location and rule id it sees
+			rule := M{"schedule": c15Scheds[x.N], "action": M{"code": "'" + tag + "' + '@' + location + '#' + ruleId"}}
 			if len(x.L) > 0 {
 				rule["deleteWith"] = toA(x.L)
 			}
@@ -316,8 +317,9 @@ func runC15(c c15Case) *vlib.Outcome {
 				}
 			}
 			if live {
-				if cond != nil || len(vals) != 1 || vals[0] != tagOf[key] {
-					o.Fail("TICK_DID_NOT_RUN", "%s: the tick of live scheduled rule %s should run exactly that rule (value %q); got values %v, condition %v", when, key, tagOf[key], vals, cond)
+				wantVal := tagOf[key] + "@" + x.Loc + "#" + x.Id
+				if cond != nil || len(vals) != 1 || vals[0] != wantVal {
+					o.Fail("TICK_DID_NOT_RUN", "%s: the tick of live scheduled rule %s should run exactly that rule, in its location and under its id (value %q); got values %v, condition %v", when, key, wantVal, vals, cond)
 				}
 				if core.OneShotSchedule(it.Schedule) {
 					// a one-shot rule is deleted after it ran
